@@ -1764,3 +1764,81 @@ package dig
 //@   ensures[C03:drawing-runs-nothing] $nrun == old($nrun) && $ncb == old($ncb)
 //@   site call (*dig.Scope).addNodes #1: assert[C19:the-scope-is-drawn-into-a-new-graph] $recv == s && $arg0 == ret(NewGraph_1, 0)
 
+
+// ---------------------------------------------------------------------------
+// C19: the text of one cluster. What is pinned here is which value goes into
+// which placeholder of the edge lines, not the DOT syntax itself.
+//@ func visualizeCtor(w, index, c) ()
+//@   requires c != nil && w != nil
+//@   requires forall j int :: 0 <= j && j < len(c.Params) ==> c.Params[j] != nil && c.Params[j].Node != nil
+//@   requires forall j int :: 0 <= j && j < len(c.GroupParams) ==> c.GroupParams[j] != nil
+//@   requires forall j int :: 0 <= j && j < len(c.Results) ==> c.Results[j] != nil && c.Results[j].Node != nil
+//@   allocates
+//@   loop range c.Params #1: complete[C19:one-edge-line-per-declared-dependency]
+//@   loop range c.GroupParams #1: complete[C19:one-edge-line-per-group-dependency]
+//@   loop range c.Results #1: complete[C19:one-node-line-per-result]
+//@   site call fmt.Fprintf #7: assert[C19:an-edge-is-dashed-exactly-when-the-dependency-is-optional] len($arg2) == 4 && $arg2[3] == box(c.Params[$i].Optional ? " style=dashed" : "")
+//@   site call (*dot.Param).String #1: assert[C19:the-edge-points-to-its-own-dependency] $recv == c.Params[$i]
+//@   site call (*dot.Result).String #1: assert[C19:each-result-of-the-cluster-is-written] $recv == c.Results[$i]
+//@   site call (*dot.Result).Attributes #1: assert[C19:each-result-is-written-with-its-own-attributes] $recv == c.Results[$i]
+//@   site call (*dot.Group).String #1: assert[C19:the-group-edge-points-to-its-own-group] $recv == c.GroupParams[$i]
+
+//@ func visualizeGroup(w, g) ()
+//@   requires g != nil && w != nil
+//@   requires forall j int :: 0 <= j && j < len(g.Results) ==> g.Results[j] != nil && g.Results[j].Node != nil
+//@   allocates
+//@   loop range g.Results #1: complete[C19:a-group-is-linked-to-each-of-its-members]
+//@   site call (*dot.Result).String #1: assert[C19:the-group-edge-points-to-its-own-member] $recv == g.Results[$i]
+
+// the whole picture: every group, every cluster (numbered by its position),
+// every failed result
+//@ func visualizeGraph(w, dg) ()
+//@   requires dg != nil && w != nil && dg.Failed != nil
+//@   requires forall j int :: 0 <= j && j < len(dg.Groups) ==> dg.Groups[j] != nil && (forall k int :: 0 <= k && k < len(dg.Groups[j].Results) ==> dg.Groups[j].Results[k] != nil && dg.Groups[j].Results[k].Node != nil)
+//@   requires forall j int :: 0 <= j && j < len(dg.Ctors) ==> dg.Ctors[j] != nil
+//@        && (forall k int :: 0 <= k && k < len(dg.Ctors[j].Params) ==> dg.Ctors[j].Params[k] != nil && dg.Ctors[j].Params[k].Node != nil)
+//@        && (forall k int :: 0 <= k && k < len(dg.Ctors[j].GroupParams) ==> dg.Ctors[j].GroupParams[k] != nil)
+//@        && (forall k int :: 0 <= k && k < len(dg.Ctors[j].Results) ==> dg.Ctors[j].Results[k] != nil && dg.Ctors[j].Results[k].Node != nil)
+//@   requires forall j int :: 0 <= j && j < len(dg.Failed.TransitiveFailures) ==> dg.Failed.TransitiveFailures[j] != nil && dg.Failed.TransitiveFailures[j].Node != nil
+//@   requires forall j int :: 0 <= j && j < len(dg.Failed.RootCauses) ==> dg.Failed.RootCauses[j] != nil && dg.Failed.RootCauses[j].Node != nil
+//@   allocates
+//@   loop range dg.Groups #1: complete[C19:every-group-is-written]
+//@   loop range dg.Ctors #1: complete[C19:every-cluster-is-written]
+//@   loop range dg.Failed.TransitiveFailures #1: complete[C19:every-transitive-failure-is-coloured]
+//@   loop range dg.Failed.RootCauses #1: complete[C19:every-root-cause-is-coloured]
+//@   site call dig.visualizeGroup #1: assert[C19:groups-written-in-order] $arg0 == w && $arg1 == dg.Groups[$i]
+//@   site call dig.visualizeCtor #1: assert[C19:clusters-numbered-by-their-position] $arg0 == w && $arg1 == $i && $arg2 == dg.Ctors[$i]
+//@   site call (*dot.Result).String #1: assert[C19:transitive-failures-coloured] $recv == dg.Failed.TransitiveFailures[$i]
+//@   site call (*dot.Result).String #2: assert[C19:root-causes-coloured] $recv == dg.Failed.RootCauses[$i]
+
+//@ func (c *Container) createGraph() (dg)
+//@   requires c != nil && c.scope != nil && childrenLinked() && nodeListsOK()
+//@   modifies dot.Graph.Ctors, elems(*dot.Ctor), map(dot.Graph.ctorMap), map(dot.Graph.consumers), dot.Graph.Groups, elems(*dot.Group), map(dot.Graph.groupMap), dot.Ctor.Params, dot.Ctor.GroupParams, dot.Ctor.Results, dot.Result.GroupIndex, dot.Group.Results, elems(*dot.Result), elems(*dot.Param)
+//@   allocates plain
+//@   ensures[C19:the-containers-root-scope-is-drawn] drawnOK(dg) && fresh(dg)
+//@   site call (*dig.Scope).createGraph #1: assert[C19:drawing-starts-at-the-root-scope] $recv == c.scope
+
+// Visualize: draw the container, mark the failures of the given error, write
+// the text of exactly that graph
+//@ func Visualize(c, w, opts) (err)
+//@   requires c != nil && c.scope != nil && w != nil && childrenLinked() && nodeListsOK()
+//@   requires forall i int :: 0 <= i && i < len(opts) ==> opts[i] != nil
+//@   modifies dot.Graph.Ctors, elems(*dot.Ctor), map(dot.Graph.ctorMap), map(dot.Graph.consumers), dot.Graph.Groups, elems(*dot.Group), map(dot.Graph.groupMap), dot.Ctor.Params, dot.Ctor.GroupParams, dot.Ctor.Results, dot.Result.GroupIndex, dot.Group.Results, elems(*dot.Result), elems(*dot.Param)
+//@   modifies dot.FailedNodes.RootCauses, dot.FailedNodes.TransitiveFailures, elems(*dot.Result), map(dot.FailedNodes.ctors), map(dot.FailedNodes.groups), dot.Ctor.ErrorType, dot.Group.ErrorType, dot.Graph.Groups, elems(*dot.Group), map(dot.Graph.groupMap)
+//@   modifies dot.Graph.Ctors, elems(*dot.Ctor), map(dot.Graph.ctorMap), dot.Ctor.Params, dot.Ctor.GroupParams, elems(*dot.Param), dot.Group.Results
+//@   modifies visualizeOptions.VisualizeError
+//@   allocates
+//@   ensures[C19:visualize-does-not-fail] err == nil
+//@   ensures[C03:drawing-runs-nothing] $nrun == old($nrun) && $ncb == old($ncb)
+//@   site call dig.updateGraph #1: assert[C19:the-given-error-marks-the-graph-being-drawn] $arg0 == ret(createGraph_1, 0) && $arg1 == options.VisualizeError
+//@   site call dig.visualizeGraph #1: assert[C19:the-text-is-that-of-the-graph-just-built] $arg0 == w && $arg1 == ret(createGraph_1, 0)
+
+//@ func (o visualizeErrorOption) applyVisualizeOption(opt) ()
+//@   requires opt != nil
+//@   allocates plain
+//@   modifies visualizeOptions.VisualizeError
+//@   ensures[C19:the-error-option-sets-the-error] opt.VisualizeError == o.err
+//@   ensures forall x *visualizeOptions :: x != opt ==> x.VisualizeError == old(x.VisualizeError)
+//@ func VisualizeError(err) (r)
+//@   allocates plain
+//@   ensures[C19:the-error-option-records-its-argument] is(r, visualizeErrorOption) && as(r, visualizeErrorOption).err == err
